@@ -128,6 +128,37 @@ def limAgree : List PP → List Nat → List Nat → Prop
   | .limit _ :: ps, s :: ss, s' :: ss' => s = s' ∧ limAgree ps ss ss'
   | _ :: _, _, _ => False
 
+/-! ### The line buffer of `_generate_with_line_buffer` and renderings that are aborted by an exception -/
+
+/-- One rendering handed to `_generate_code`: the chunks the template generator yields and whether it then raises
+(`{% assert %}`, an undefined variable, a filter error, a line post-processor that raises …). -/
+structure Rendering where
+  chunks  : List Str
+  aborted : Bool
+deriving DecidableEq, Repr, Inhabited
+
+/-- The `(line, terminator)` pairs handed on by one call of `_generate_with_line_buffer` that starts with `startBuf` in its
+line buffer, and the buffer it leaves behind.  A rendering that completes flushes the remainder and leaves nothing; an
+aborted one has handed on its complete lines only — the unfinished line stays in the buffer (the exception leaves the
+function before the flush; a carriage return held back by `_join_split_line_endings` dies with that generator). -/
+def bufLines (startBuf : Str) (r : Rendering) : List Line × Str :=
+  let p := procChunks ⟨startBuf, false⟩ r.chunks
+  if r.aborted then (p.1, p.2.buf)
+  else (p.1 ++ flush (p.2.buf ++ (if p.2.pend then ['\r'] else [])), [])
+
+/-- The files of a process, one after the other.  `perCall`: the line buffer is a fresh `io.StringIO()` created by the call
+(the code as it is; source fact `lineBufferPerCall`) — otherwise one buffer is shared by all calls.  `resetPerFile` as in
+`runFiles`.  Without line post-processors `_generate_code` does not use the line buffer at all: every chunk the
+generator yielded is written as it comes (`for part in template_gen: output_file.write(part)`). -/
+def runRenderings (perCall resetPerFile : Bool) (pps : List PP) : List Nat → Str → List Rendering → List Str
+  | _, _, [] => []
+  | ss, buf, r :: rs =>
+      if pps.isEmpty then r.chunks.flatten :: runRenderings perCall resetPerFile pps ss buf rs
+      else
+        let l := bufLines (if perCall then [] else buf) r
+        let o := pipeLinesSt pps (if resetPerFile then zeros pps else ss) l.1
+        write o.1 :: runRenderings perCall resetPerFile pps o.2 l.2 rs
+
 /-! ### Memoisation -/
 
 /-- A cache in front of a function `f`: look the key up, otherwise compute and store; `evict` models the bounded
@@ -170,6 +201,28 @@ def memoRunShared {ι κ ν : Type} [DecidableEq κ] (f : ι → κ → ν) :
       let a := memoGetShared f cache q.1 q.2
       let b := memoRunShared f a.2 qs
       (a.1 :: b.1, b.2)
+
+/-- A cache whose keys are compared through `π` although the function looks at the whole argument: `functools.lru_cache`
+on a function of a PyDSDL model object — composite types compare and hash equal by name, version and bit length set
+(`π`), the function (`DependencyBuilder(for_type)`) keeps the object with its attributes.  `Language.get_dependency_builder`
+was memoised like this before the `fix:` commit; no memoised function is any more (source fact `memoKeysDetermineResult`). -/
+def memoGetBy {κ κ' ν : Type} [DecidableEq κ'] (π : κ → κ') (f : κ → ν) (cache : List (κ' × ν)) (k : κ) :
+    ν × List (κ' × ν) :=
+  match cacheFind cache (π k) with
+  | some v => (v, cache)
+  | none => (f k, (π k, f k) :: cache)
+
+def memoRunBy {κ κ' ν : Type} [DecidableEq κ'] (π : κ → κ') (f : κ → ν) :
+    List (κ' × ν) → List κ → List ν × List (κ' × ν)
+  | cache, [] => ([], cache)
+  | cache, k :: ks =>
+      let a := memoGetBy π f cache k
+      let b := memoRunBy π f a.2 ks
+      (a.1 :: b.1, b.2)
+
+/-- Every stored value is the function's value for every argument with that key. -/
+def CacheValidBy {κ κ' ν : Type} (π : κ → κ') (f : κ → ν) (cache : List (κ' × ν)) : Prop :=
+  ∀ p ∈ cache, ∀ k, π k = p.1 → p.2 = f k
 
 /-- Every stored value is the function's value. -/
 def CacheValid {κ ν : Type} (f : κ → ν) (cache : List (κ × ν)) : Prop := ∀ p ∈ cache, p.2 = f p.1
